@@ -198,14 +198,28 @@ class OPA(BaseModelSingleSet):
         # -> target (feature1 x dummy)
 
         # Solve the symmetric eigenvalue problem
-        eigensolver = Decomposer(
-            n_modes=self._params["n_modes"], flip_signs=False, solver="full"
+        # NOTE: the matrix is symmetric but in general indefinite (lagged
+        # autocorrelations can be negative), so a symmetric eigensolver is needed;
+        # an SVD returns |lambda| and orders the modes by magnitude
+        n_modes = self._params["n_modes"]
+        lbda, U = xr.apply_ufunc(
+            np.linalg.eigh,
+            target,
+            input_core_dims=[("feature1", "dummy")],
+            output_core_dims=[("mode",), ("feature1", "mode")],
+            dask="parallelized",
+            output_dtypes=[float, float],
+            dask_gufunc_kwargs={
+                "output_sizes": {"mode": target.sizes["feature1"]},
+                "allow_rechunk": True,
+            },
         )
-        eigensolver.fit(target, dims=("feature1", "dummy"))
-        U = eigensolver.U_
-        # -> U (feature1 x mode)
-        lbda = eigensolver.s_
+        # eigh returns ascending eigenvalues: keep the n_modes largest, descending
+        idx_modes = slice(None, -(n_modes + 1), -1)
+        lbda = lbda.isel(mode=idx_modes).assign_coords(mode=range(1, n_modes + 1))
         # -> lbda (mode)
+        U = U.isel(mode=idx_modes).assign_coords(mode=range(1, n_modes + 1))
+        # -> U (feature1 x mode)
         # U, lbda, ct = xr.apply_ufunc(
         #     np.linalg.svd,
         #     target,
